@@ -90,10 +90,11 @@ SIGMAS = {
     'kin5': [U.WALL, U.door(2, U.C1), U.door(0, U.C1), U.box(U.key(U.C1)), U.telepod(U.C1)],
     'obj5': [U.WALL, U.OBST, U.key(U.C1), U.box(U.key(U.C1)), U.telepod(U.C1)],
     'door5': [U.WALL, U.door(2, U.C1), U.door(1, U.C2), U.key(U.C1), U.box(U.box(U.key(U.C1)))],
+    'door0': [U.door(2, 0), U.door(1, 0), U.key(0), U.door(2, U.C1)],
     'tele2': [U.telepod(U.C1), U.telepod(U.C2)],
     'rew5': [U.WALL, U.exit_(0), U.OBST, U.key(U.C1), U.door(1, U.C1)],
 }
-HELDS = {'full': U.HELD_FULL, 'small': U.HELD_SMALL, 'two': [U.NONE, U.key(U.C1)], 'none': [U.NONE]}
+HELDS = {'key0': [U.NONE, U.key(0), U.key(U.C1), U.beacon(0)], 'full': U.HELD_FULL, 'small': U.HELD_SMALL, 'two': [U.NONE, U.key(U.C1)], 'none': [U.NONE]}
 
 
 def sweep(plan, worker_fn, nshards=64):
@@ -179,7 +180,7 @@ def standard_plan(tier, chains_lo, chains_hi=None, held_lo='small', held_hi='two
             else:
                 plan.append(dict(shape=sh, sigma='reduced', k=2, held=held_hi, chains=chains_hi, actions=actions, only_k=2))
             if sh[0] * sh[1] <= 6:
-                plan.append(dict(shape=sh, sigma='reduced', k=3, held=held_hi, chains=chains_lo, actions=actions, only_k=3))
+                plan.append(dict(shape=sh, sigma='reduced', k=3, held=held_hi, chains=chains_hi, actions=actions, only_k=3))
     return plan
 
 
